@@ -904,19 +904,44 @@ func (e Engine) run(ctx *kit.Ctx, sc *kit.Scenario[Config, Op], res *kit.Result,
 			}
 			synctest.Wait()
 			// let duplicates and late packets arrive: completion must not be reported again
-			for k := 0; k < 50 && len(queue) > 0; k++ {
-				time.Sleep(200 * time.Millisecond)
-				synctest.Wait()
-				for len(queue) > 0 && queue[0].at <= now() {
-					m := queue[0]
-					queue = queue[1:]
-					if !m.toP {
-						fc.onPkt(enc.NewBufferReader(append([]byte(nil), m.frame...)))
-					}
+			// (every packet reaches its destination at its own time, also after the fetches are over: a late Interest
+			// is still answered, and the late answer arrives while nothing is pending - not twenty seconds later,
+			// when the next fetch has started)
+			for k := 0; k < 200; k++ {
+				for _, f := range sortByName(fc.drain()) {
+					seq++
+					queue = append(queue, inflight{at: now(), seq: seq, toP: true, frame: f})
 				}
+				for _, f := range sortByName(fp.drain()) {
+					seq++
+					queue = append(queue, inflight{at: now(), seq: seq, toP: false, frame: f})
+				}
+				if len(queue) == 0 {
+					break
+				}
+				sort.Slice(queue, func(i, j int) bool {
+					if queue[i].at != queue[j].at {
+						return queue[i].at < queue[j].at
+					}
+					return queue[i].seq < queue[j].seq
+				})
+				if queue[0].at > now() {
+					time.Sleep(queue[0].at - now())
+					synctest.Wait()
+				}
+				m := queue[0]
+				queue = queue[1:]
+				if m.toP {
+					fp.onPkt(enc.NewBufferReader(append([]byte(nil), m.frame...)))
+				} else {
+					fc.onPkt(enc.NewBufferReader(append([]byte(nil), m.frame...)))
+				}
+				synctest.Wait()
 			}
 			time.Sleep(20 * time.Second)
 			synctest.Wait()
+			fc.drain() // retransmissions of fetches that have since failed
+			fp.drain()
 			pendingRestart = nil
 			if sc.Property == "C04" {
 				var ms1 runtime.MemStats
